@@ -364,6 +364,80 @@ def relink_events(ns, rng, tid0, tier):
     return events, tid
 
 
+def service_relink_events(ns, rng, tier):
+    """sequences of link changes of the service layer on live systems, with the object chain the code really built (hook 'chains'):
+    validated by TLC against EFServices (Trace_Services)"""
+    import copy
+    log = efx.EventLog(ns)
+    events, tid, raised = [], 0, 0
+    for kind in ("VideoStreaming", "WebApplication", "GenAIModel"):
+        for _trial in range(2 if tier == "quick" else 12):
+            tid += 1
+            system, job, s1, s2, a, b = relink_build(ns, kind, 1, "A")
+            jobs = {}
+            for up in system.usage_patterns:
+                for step in up.usage_journey.uj_steps:
+                    for j in step.jobs:
+                        jobs[j.name] = j
+            services = {x.name: x for x in [s1, s2] + [j.service for j in jobs.values() if hasattr(j, "service")]}
+            servers = {a.name: a, b.name: b}
+            S = {"servers": sorted(servers), "services": sorted(services),
+                 "sjobs": sorted(n for n, j in jobs.items() if hasattr(j, "service")),
+                 "pjobs": sorted(n for n, j in jobs.items() if not hasattr(j, "service")),
+                 "calc": sorted(services) if kind == "GenAIModel" else [],
+                 "srvOf": {n: x.server.name for n, x in services.items()},
+                 "svcOf": {n: j.service.name for n, j in jobs.items() if hasattr(j, "service")},
+                 "pserver": {n: j.server.name for n, j in jobs.items() if not hasattr(j, "service")},
+                 "stoOf": {n: v.storage.name for n, v in servers.items()}}
+            for seq in range(3 if tier == "quick" else 5):
+                moves = [(j, "service", S["svcOf"][j], x) for j in S["sjobs"] for x in S["services"] if x != S["svcOf"][j]] + \
+                        [(x, "server", S["srvOf"][x], v) for x in S["services"] for v in S["servers"] if v != S["srvOf"][x]]
+                obj, attr, old, new = rng.choice(moves)
+                log.clear()
+                try:
+                    setattr(jobs[obj] if attr == "service" else services[obj], attr, services[new] if attr == "service" else servers[new])
+                except Exception as ex:   # noqa: a move the code refuses (capacity) ends this sequence
+                    raised += 1
+                    events.append({"tid": tid, "seq": seq, "ev": "RelinkRaised", "kind": kind, "exc": type(ex).__name__})
+                    break
+                chain = []
+                for r in log.find("chains"):
+                    chain += r["obj_chain"]
+                events.append({"tid": tid, "seq": seq, "ev": "Relink", "kind": kind, "S": copy.deepcopy(S),
+                               "ch": {"obj": obj, "old": old, "new": new}, "attr": attr, "obj_chain": chain, "differs": []})
+                (S["svcOf"] if attr == "service" else S["srvOf"])[obj] = new
+    log.close()
+    return events, raised
+
+
+SERVICES_CFG = """SPECIFICATION Spec
+CONSTANTS
+  Servers = {"v1", "v2"}
+  Services = {"s1", "s2", "s3"}
+  SJobs = {"j1", "j2"}
+  PJobs = {"p1"}
+  FixHolder = %s
+  ListsServer = %s
+INVARIANT Covers
+CHECK_DEADLOCK FALSE
+"""
+
+
+def run_services_model(out, wd):
+    """MC_Services: the object chain of every link change of the service layer covers what reads the change, for every topology of
+    a small universe; without the holder (before repair 54f9d99) or without a service listing its server TLC must find a counterexample"""
+    res = tlc.run_tlc(wd, "MC_Services", SERVICES_CFG % ("TRUE", "TRUE"), workers=8, timeout=900)
+    tlc.require_clean(res, "MC_Services")
+    out.add_tlc(res, "MC_Services: every topology of 2 servers, 3 services, 2 service jobs, 1 plain job x every re-pointed link: Covers",
+                exhaustive=res.completed)
+    if res.error:
+        out.violation("model:" + res.error, {"tlc_output_tail": res.out[-3000:]})
+    for fix, lists, what in (("FALSE", "TRUE", "the holder of the link left out of the chain"), ("TRUE", "FALSE", "a service not listing its server")):
+        r = tlc.run_tlc(wd, "MC_Services", SERVICES_CFG % (fix, lists), workers=8, timeout=900)
+        if not (r.error and "Covers" in r.out):
+            raise MachineryError(f"MC_Services did not produce the expected counterexample for: {what}")
+
+
 def run(tier, out):
     wd = work_dir("c17")
     try:
@@ -389,6 +463,28 @@ def run(tier, out):
         for t, s, clause, data in fails:
             e = by.get((t, s), {})
             out.violation(clause, {"spec_says": data[:1200], "event": {k: v for k, v in e.items() if k != "differs"}})
+        # the service layer's links: model (MC_Services) and recorded link changes (Trace_Services)
+        run_services_model(out, wd)
+        sev, n_raised = service_relink_events(ns, rng, tier)
+        strace = wd + "/c17_services.ndjson"
+        tracecheck.write_trace(strace, sev, keys=sorted({k for e in sev for k in e}))
+        sfails, snotes, res3 = tracecheck.validate(wd, "Trace_Services", strace, {}, timeout=3000)
+        out.add_tlc(res3, "Trace_Services on recorded link changes of services and service jobs")
+        out.evaluations += len(sev)
+        sby = {(e["tid"], e["seq"]): e for e in sev}
+        for e in sev:
+            if e["ev"] == "Relink":
+                out.nontrivial.add(("relink", e["kind"], e["attr"], e["tid"], e["seq"]))
+        for t, s_, clause, data in sfails:
+            e = sby.get((t, s_), {})
+            out.violation(clause + ":" + e.get("kind", "?") + "." + e.get("attr", "?"),
+                          {"spec_says": data[:1200], "event": {k: v for k, v in e.items() if k != "S"}, "S": e.get("S")})
+        note_kinds = {}
+        for _t, _s, clause, _d in snotes:
+            note_kinds[clause] = note_kinds.get(clause, 0) + 1
+        counts["service_relink_events"] = len([e for e in sev if e["ev"] == "Relink"])
+        out.extra.update({"service_link_changes_validated": counts["service_relink_events"], "service_link_changes_refused": n_raised,
+                          "service_chain_divergence_notes": note_kinds})
         for e in events[:5]:
             out.sample(e)
         out.extra.update({"rule": "a case = one rule instance, one builder/plain twin pair or one refreshed input; distinct by "
